@@ -97,7 +97,8 @@ theorem C02_representation_independent (env : Env) (g2 : Graph) (h : SameAnswers
     (run env ops opName rootNode rootTy).data = (run { env with graph := g2 } ops opName rootNode rootTy).data ∧
     (run env ops opName rootNode rootTy).acc = (run { env with graph := g2 } ops opName rootNode rootTy).acc := by
   unfold run
-  cases chooseOp ops opName with
+  simp only
+  cases chooseOp env.cfg ops opName with
   | none => exact ⟨rfl, rfl⟩
   | some op =>
     simp only
